@@ -68,12 +68,63 @@ Definition bcase_ok (c : bcase) : bool :=
   | NoOracle => false
   end.
 
-Inductive case :=
-| CW (c : EsgzWriter.case)   (* Writer / lossless (and Build given the sorted order) *)
+(* one build with a compressor value *)
+Inductive step :=
+| CW (c : EsgzWriter.case)   (* Writer / lossless *)
 | CB (c : bcase).            (* Build from the raw input tar *)
 
-Definition case_ok (c : case) : bool :=
+Definition step_ok (c : step) : bool :=
   match c with CW w => EsgzWriter.case_ok w | CB b => bcase_ok b end.
+
+(* ---------- compressor VALUES reused for several builds ----------
+   What a compressor value carries from one build to the next:
+     gzip (estargz.GzipCompressor)          nothing (the level only)
+     zstd:chunked (zstdchunked.Compressor)  nothing that reaches the output (an encoder pool, the Metadata map)
+     external TOC (externaltoc.GzipCompressor)  gc.buf: the TOC registered by the LAST WriteTOCAndFooter, REPLACED
+                                             by each new one; WriteTOCTo hands it out.
+   A build that fails before Close / closeWithCombine never reaches WriteTOCAndFooter and leaves the value as it is. *)
+Definition cstate := option (list tocent).
+
+Definition step_fmt (c : step) : ffmt := match c with CW w => c_fmt w | CB b => bc_fmt b end.
+Definition step_obs_ok (c : step) : bool := match c with CW w => c_ok w | CB b => bc_ok b end.
+Definition step_obs_toc (c : step) : list tocent := match c with CW w => c_toc w | CB b => bc_toc b end.
+
+(* the blob the model builds for this step *)
+Definition step_blob (c : step) : res blob :=
+  match c with
+  | CW w => build_blob null_io (c_mode w) (c_chunk w) (c_min w) (c_tlen w) (c_entries w) (c_cs w) (c_fs w)
+  | CB b => build_from_tar null_io (fun k => nth k (bc_attr b) (KBad, 0, 0)) (bc_tar b) (bc_prio b) (bc_allow b)
+                           (N.of_nat (List.length (bc_tar b))) (bc_lmh b) (bc_workers b) (bc_chunk b) (bc_min b) (bc_cs b) (bc_fs b)
+  end.
+
+(* WriteTOCAndFooter of the step's format on the compressor value *)
+Definition comp_after (st : cstate) (c : step) : cstate :=
+  match step_fmt c with
+  | FExt => match step_blob c with Ok b => Some (b_toc b) | _ => st end
+  | _ => st
+  end.
+
+(* WriteTOCTo *)
+Definition write_toc_to (st : cstate) : option (list tocent) := st.
+
+(* a case = the builds made, one after the other, with ONE compressor value; for the external-TOC format the
+   observed TOC of every step is the one fetched through WriteTOCTo right after that build *)
+Definition case := list step.
+
+Fixpoint seq_ok (st : cstate) (l : list step) : bool :=
+  match l with
+  | [] => true
+  | c :: t =>
+      let st' := comp_after st c in
+      step_ok c
+      && match step_fmt c, step_obs_ok c with
+         | FExt, true => match write_toc_to st' with Some toc => toc_eqb toc (step_obs_toc c) | None => false end
+         | _, _ => true
+         end
+      && seq_ok st' t
+  end.
+
+Definition case_ok (c : case) : bool := seq_ok None c.
 
 Fixpoint mismatches_from (n : nat) (cs : list case) : list nat :=
   match cs with
